@@ -221,7 +221,8 @@ pub fn check(j: &Job, c: &Case, l: &mut Local) -> CaseResult {
             rounds: s0.stripped.len() > max,
             has_exp: has_exp_out,
             notation_matches_unrounded: unrounded_outside == has_exp_out,
-            pow2_or_mixed: is_pow2,
+            // radix 2: one bit per digit, the finding (max digits applied to bits) cannot apply
+            pow2_or_mixed: is_pow2 && radix != 2,
             generic: radix != 10 && !is_pow2,
             tiny_below_r200: tiny,
             max_set: o.max_digits != 0,
